@@ -165,6 +165,13 @@ def run_c16(ctx):
     vlib.require_clean(res, "MCArrange")
     vecs = res.vecs
     loadhist(ctx, vecs, "arrangements", {"verdict", "atomic", "schema"}, devs)
+    # "answer introspection identically": the sets with interfaces and unions again with the introspection view after EVERY load
+    # (a root that is asked between the loads must still end with the view of the whole set)
+    keep2 = (lambda i: i % 16 == ctx.seed % 16) if ctx.tier == "quick" else (lambda i: i % 2 == ctx.seed % 2)
+    res = vlib.run_tlc(ctx, "MCArrange", ARRANGE_CFG.format(known=tlaset(sorted(devs)), intro="TRUE", sets=tlaset(["s1", "s2", "s8"])), timeout=3400, xss="64m",
+                       vec_filter=keep2)
+    vlib.require_clean(res, "MCArrange (introspection between the loads)")
+    loadhist(ctx, res.vecs, "arrangements-asked-between-loads", {"verdict", "schema", "intro"}, devs, extra=["-intro"])
     record_and_judge(ctx, devs, 300 if ctx.tier == "quick" else 4000)
     ctx.exhaustive = ctx.tier == "thorough"
     ctx.rule = ("for each of 8 definition sets (6 valid, 2 invalid; all kinds, directive uses with and without default arguments, a schema block): every "
